@@ -314,6 +314,10 @@ def run(rep):
     if traces:
         rep.sample({"trace_prefix": traces[0][:10]})
         validate(rep, traces, metas)
+    # the whole stack of one interface: real node, Worker loops, Bromelia.main, per-message threads (spec/Stack.tla)
+    if len(rep.violations) < 10:
+        from . import stack
+        stack.stage(rep, 60 if rep.tier == "quick" else 1500, focus="callers")
     rep.assumptions += ["answers arrive only for requests that the worker's send handler has taken from the send queue",
                         "the worker's connection is not started: a consumer thread of the harness plays Worker.send_handler"]
 
@@ -357,6 +361,9 @@ def replay(rep, path):
     r = json.load(open(path))["replay"]
     from engine import vsched
     vsched.install(0)
+    if r.get("kind") == "stack":
+        from . import stack
+        return stack.replay(rep, r)
     if r.get("kind") == "two-interfaces":
         verdict = run_two_interfaces(r["seed"])
         if verdict:
